@@ -264,12 +264,148 @@ def rule_usage(chk):
     chk.floor("C02.floor/visitor-children", total, 30, "sub-expression positions of the usage visitors")
 
 
+def ident_name(e):
+    """name of an ast::Expression::Identifier value built by ScopedIdentifier::trivial / unqualified"""
+    while isinstance(e, I.Enum) and e.adt == "Located":
+        e = e.fields.get("node")
+    if isinstance(e, I.Enum) and e.variant == "Identifier":
+        e = e.fields.get("0")
+    if isinstance(e, I.Enum) and e.adt == "ScopedIdentifier":
+        ids = e.fields.get("identifiers")
+        if isinstance(ids, list) and len(ids) == 1:
+            x = ids[0]
+            while isinstance(x, I.Enum) and x.adt == "Located":
+                x = x.fields.get("node")
+            return x if isinstance(x, str) else None
+    return None
+
+
+def rule_out_eval(chk, tr):
+    """generate_function_out_trampoline_body evaluated (finite-map reader) for every parameter list over {In, Out,
+    InOut}^<=3 and both return kinds: the emitted statements must be - one local per out/inout parameter, initialised
+    from the parameter exactly when it is inout; one call passing the local for out/inout and the parameter itself for
+    in, in order; then one `parameter = local` per out/inout parameter, after the call. True when readable."""
+    f = chk.facts
+    mods = f.variants("InputModifier", "rssl_ir") or []
+    bad = []
+    n = 0
+    for ln in range(0, 4):
+        for ms in itertools.product(mods, repeat=ln):
+            for needs_return in (False, True):
+                n += 1
+                names = ["p%d" % i for i in range(ln)]
+                decl = I.Enum("FunctionImplementation", None, {"params": [I.Enum("FunctionParam", None, {
+                    "id": I.Enum("VariableId", None, {"0": i}),
+                    "param_type": I.Enum("ParamType", None, {"type_id": I.Enum("TypeId", None, {"0": i}), "input_modifier": I.Enum("InputModifier", m)})}) for i, m in enumerate(ms)]})
+                sig = I.Enum("FunctionSignature", None, {"return_type": I.Enum("FunctionReturn", None, {"return_type": I.Enum("TypeId", None, {"0": 99})})})
+                ext = {"get_variable_name": lambda a: I.Enum("Result", "Ok", {"0": "p%d" % a[1].fields["0"]}),
+                       "generate_type_and_declarator": lambda a: I.Enum("Result", "Ok", {"0": (I.Opaque("type"), I.Enum("Declarator", "Named", {"0": a[1]}))}),
+                       "TypeRegistry::is_void": lambda a, nr=needs_return: not nr,
+                       "append_arguments_for_globals": lambda a: (),
+                       "metal_lib_identifier": lambda a: I.Enum("ScopedIdentifier", None, {"identifiers": [a[0] + "!lib"]})}
+                ip = I.Interp(f, max_depth=8, extern=ext)
+                try:
+                    r = ip.apply(tr, ["callee", I.Opaque("id"), sig, decl, I.Opaque("return type"), I.Opaque("context")])
+                except I.Unknown as e:
+                    if n == 1:
+                        return False
+                    bad.append((ms, "not readable: %s" % e))
+                    continue
+                stmts = r.fields.get("0") if isinstance(r, I.Enum) and r.variant == "Ok" else None
+                if not isinstance(stmts, list):
+                    bad.append((ms, "returns %r" % (r,)))
+                    continue
+                # classify statements
+                seq = []
+                for s in stmts:
+                    k = s.fields.get("kind") if isinstance(s, I.Enum) else None
+                    if isinstance(k, I.Enum) and k.variant == "Var":
+                        vd = k.fields.get("0")
+                        defs = vd.fields.get("defs") if isinstance(vd, I.Enum) else None
+                        d0 = defs[0] if isinstance(defs, list) and defs else None
+                        decl_ = d0.fields.get("declarator") if isinstance(d0, I.Enum) else None
+                        init = d0.fields.get("init") if isinstance(d0, I.Enum) else None
+                        lname = decl_.fields.get("0") if isinstance(decl_, I.Enum) and decl_.variant == "Named" else None
+                        iv = None
+                        call = None
+                        if isinstance(init, I.Enum) and init.variant == "Some":
+                            ie = init.fields.get("0")
+                            ie = ie.fields.get("0") if isinstance(ie, I.Enum) and ie.variant == "Expression" else ie
+                            iv = ident_name(ie)
+                            x = ie
+                            while isinstance(x, I.Enum) and x.adt == "Located":
+                                x = x.fields.get("node")
+                            if isinstance(x, I.Enum) and x.variant == "Call":
+                                call = x
+                        if call is not None:
+                            seq.append(("call", call))
+                        else:
+                            seq.append(("local", lname, iv, isinstance(init, I.Enum) and init.variant == "Some"))
+                    elif isinstance(k, I.Enum) and k.variant == "Expression":
+                        x = k.fields.get("0")
+                        if isinstance(x, I.Enum) and x.variant == "Call":
+                            seq.append(("call", x))
+                        elif isinstance(x, I.Enum) and x.variant == "BinaryOperation" and isinstance(x.fields.get("0"), I.Enum) and x.fields["0"].variant == "Assignment":
+                            seq.append(("assign", ident_name(x.fields.get("1")), ident_name(x.fields.get("2"))))
+                        else:
+                            seq.append(("other", x))
+                    elif isinstance(k, I.Enum) and k.variant == "Return":
+                        seq.append(("return",))
+                    else:
+                        seq.append(("other", k))
+                refs = [i for i, m in enumerate(ms) if m != "In"]
+                locals_ = [s for s in seq if s[0] == "local"]
+                calls = [(j, s) for j, s in enumerate(seq) if s[0] == "call"]
+                assigns = [(j, s) for j, s in enumerate(seq) if s[0] == "assign"]
+                why = None
+                if len(locals_) != len(refs) or len(calls) != 1:
+                    why = "%d local(s) and %d call(s) for %d out/inout parameter(s)" % (len(locals_), len(calls), len(refs))
+                else:
+                    lname = {}
+                    for i, l in zip(refs, locals_):
+                        lname[i] = l[1]
+                        if ms[i] == "InOut" and not (l[3] and l[2] == names[i]):
+                            why = "the local for inout parameter %d is not initialised from the parameter" % i
+                        if ms[i] == "Out" and l[3]:
+                            why = "the local for out parameter %d is initialised (%s)" % (i, l[2])
+                        if not isinstance(l[1], str) or l[1] in names:
+                            why = "the local for parameter %d has no name of its own (%r)" % (i, l[1])
+                    cj, c = calls[0]
+                    args = c[1].fields.get("2") if isinstance(c[1], I.Enum) else None
+                    passed = [ident_name(a) for a in (args or [])][:ln]
+                    want_args = [lname.get(i, names[i]) for i in range(ln)]
+                    if why is None and passed != want_args:
+                        why = "the call passes %s, must pass %s" % (passed, want_args)
+                    want_assign = [(names[i], lname[i]) for i in refs]
+                    got_assign = [(s[1], s[2]) for j, s in assigns]
+                    if why is None and got_assign != want_assign:
+                        why = "copy-back statements are %s, must be %s" % (got_assign, want_assign)
+                    if why is None and any(j < cj for j, s in assigns):
+                        why = "a copy-back statement precedes the call"
+                    if why is None and any(j > cj for j, s in enumerate(seq) if s[0] == "local"):
+                        why = "a local is declared after the call"
+                if why:
+                    bad.append((ms, why))
+    ok = not bad
+    chk.ob("C02.out/copy-in-out", ok,
+           "%d parameter lists: local per out/inout parameter (initialised iff inout), locals passed, parameters copied back after the call" % n if ok else
+           "out/inout trampoline for parameters (%s): %s (%d of %d cases): the Metal function no longer has copy-in/copy-out semantics" % (", ".join(bad[0][0]), bad[0][1], len(bad), n),
+           where(tr), sample={"cases": n, "wrong": len(bad)})
+    chk.ob("C02.out/copy-back-after-call", ok, "decided by the evaluated trampoline" if ok else "see C02.out/copy-in-out", where(tr), trivial=True)
+    return True
+
+
 def rule_out(chk):
     """Shape of the copy-in / copy-out trampoline, with every variable identified by its role (not its name)."""
     f = chk.facts
     tr = f.fn("generate_function_out_trampoline_body", MSL)
     if not chk.anchor("C02.anchor/trampoline", tr, "generate_function_out_trampoline_body"):
         return
+    try:
+        if rule_out_eval(chk, tr):
+            return
+    except (I.ReturnEx, I.BreakEx, I.ContinueEx, KeyError, AttributeError, TypeError, IndexError):
+        pass
 
     def var_ids(n):
         return {v["id"] for v in F.exprs(n, "Var")}
